@@ -13,7 +13,7 @@ PARTIAL = ('proved: result() keeps value and independent/dependent components (s
 ASSUMPTIONS = ['u(m) > 0 for the chain-rule clause (sensitivity w.r.t. a zero-uncertainty intermediate is reported as 0: documented)']
 TRUSTED = []
 
-def correspondence(rng, tier):
+def _base_correspondence(rng, tier):
     n = 240 if tier == 'quick' else 4000
     return kernel.run_kernel_corr(rng, n, 'result', 'C06')
 
@@ -86,3 +86,14 @@ def replay(payload):
         except Exception as ex:
             print('replay raised', repr(ex)); return 1
     return 0
+
+def correspondence(rng, tier):
+    r = _base_correspondence(rng, tier)
+    # extra_corr: restore_then_declare: result() of quantities depending on restored intermediates, reading context id smaller and larger than the writing one (model Archive.v + Kernel.step)
+    f = __import__('p_C07').restore_then_declare_correspondence(rng, tier)
+    r['mismatches'] += f.get('mismatches', [])
+    r['programs'] += f.get('programs', 0); r['steps'] += f.get('steps', 0)
+    r['distinct'] = r.get('distinct', 0) + f.get('distinct', 0)
+    r.setdefault('distribution', {})['restore_then_declare'] = f.get('programs', 0)
+    r['rule'] = r.get('rule', '') + '; plus restore_then_declare: result() of quantities depending on restored intermediates, reading context id smaller and larger than the writing one (model Archive.v + Kernel.step)'
+    return r
